@@ -4,6 +4,7 @@ import pyvc.evalexpr as ee
 orig=e.binop
 def dbg(op,a,b,node):
     if 'global' in (a.kind,b.kind):
+        import traceback; traceback.print_stack(limit=12)
         import ast; print('BINOP',a,b,ast.dump(node)[:300]); print(sorted(e.st.env))
     return orig(op,a,b,node)
 e.binop=dbg
